@@ -12,6 +12,14 @@ var wordNames = []string{"a", "b", "c", "interface", "name", "config", "if-name"
 // oddNames are valid XML names the library's rewrite pattern never touches ([\w-]+ does not match them).
 var oddNames = []string{"a.b", "élément", "名前", "n1.x-y", "_u"}
 
+// libNames collide with, extend, or are prefixes of the element names the library itself emits.
+var libNames = []string{
+	"filter", "filters", "filter-list", "filterX", "filte", "source", "sources", "target", "targets", "config", "configuration", "confi",
+	"rpc", "rpc-reply", "rp", "get", "get-config", "get-configs", "edit-config", "edit-conf", "with-defaults", "commit", "commits", "confirmed",
+	"confirm-timeout", "persist", "persist-id", "candidate", "running", "startup", "ok", "copy-config", "delete-config", "lock", "unlock",
+	"validate", "discard-changes", "data", "hello",
+}
+
 var textPool = []string{
 	"x", "eth0", "10.0.0.1/24", "a b  c", "1 > 0", "q&amp;a", "&lt;tag&gt;&lt;/tag&gt;", "é", "→ü€", "😀 ok", "line1\nline2", "tab\there",
 	" lead", "trail ", "ge-0/0/0", "&#233;&#x2192;", "a]]b", "#42\n##", "日本語のテキスト", "#",
@@ -30,6 +38,8 @@ var wsPool = []string{" ", "\n", "\n  ", "\t", "\r\n", "   ", "\n\n"}
 type xg struct {
 	r  *rand.Rand
 	mb bool // allow multi-byte material
+	// forceLib makes the next name() draw from libNames (used for the root of a fragment)
+	forceLib bool
 }
 
 func (g *xg) pick(p []string) string { return p[g.r.Intn(len(p))] }
@@ -53,7 +63,18 @@ func isASCII(s string) bool {
 }
 
 func (g *xg) name(parent string) (name, nsAttr string) {
-	switch g.r.Intn(12) {
+	k := g.r.Intn(12)
+	if g.forceLib {
+		g.forceLib = false
+		k = 2
+	}
+	switch k {
+	case 2, 3:
+		name = g.pick(libNames)
+		if g.r.Intn(5) == 0 {
+			name = "p:" + name
+			nsAttr = `xmlns:p="urn:example:p"`
+		}
 	case 0:
 		if g.mb {
 			name = g.pick(oddNames)
@@ -227,11 +248,13 @@ func (g *xg) Fragment() string {
 		return "x"
 	case 2: // siblings with whitespace around
 		b.WriteString("\n  ")
+		g.forceLib = g.r.Intn(3) == 0
 		g.elem(&b, 2, "", &budget)
 		b.WriteString("\n  ")
 		g.elem(&b, 1, "", &budget)
 		b.WriteString("\n")
 	default:
+		g.forceLib = g.r.Intn(3) == 0
 		g.elem(&b, 3, "", &budget)
 	}
 	return b.String()
@@ -254,12 +277,19 @@ func (g *xg) Config() string {
 	case 1:
 		open = "<config >"
 	}
+	closeTag := "</config>"
+	if g.r.Intn(5) == 0 {
+		// payload whose root is not <config> but a name close to one the library emits
+		nm := g.pick([]string{"configuration", "config-list", "confi", "target", "targets", "edit-config", "edit-configs", "rpc", "filter", "filters"})
+		open = "<" + nm + g.pick([]string{"", ` xmlns="urn:example:cfg"`, ` x="1"`}) + ">"
+		closeTag = "</" + nm + ">"
+	}
 	b.WriteString(open)
 	n := g.r.Intn(3)
 	for i := 0; i <= n; i++ {
 		g.elem(&b, 3, "config", &budget)
 	}
-	b.WriteString("</config>")
+	b.WriteString(closeTag)
 	return b.String()
 }
 
